@@ -158,6 +158,13 @@ def run_query(builder, q, vars_, tier, workroot):
             if pre:
                 builder.unit_text(set(), set(), pre)
                 targets = builder.glob_fns(tpat)
+        if not targets and q.lambdas_of:
+            # the target is a lambda of a function that is not itself translated: name the lambdas of that function
+            # (document order) without printing its body
+            with _TRANSLATE_LOCK:
+                for pat in q.lambdas_of:
+                    for c in builder.glob_fns(subst(pat, vars_)): u.name_lambdas(c)
+            targets = builder.glob_fns(tpat)
         if len(targets) != 1:
             res.reason = 'target pattern %r matches %d functions (extraction changed?)' % (tpat, len(targets)); return res
         target = targets[0]; res.target = target
